@@ -200,8 +200,27 @@ def clearlyObjectionable (lines : List Bytes) : Bool :=
           | _ => false
     | [] => false
 
+/-- The offers of Sec-WebSocket-Extensions lines that are plainly written (tokens, `;`, `=`, `,`, blanks
+    only - no quoting), as a list of (name, parameters); `none` when any line is not that plain.
+    Independent of the model's header parser. -/
+def plainOffer (vals : List Bytes) : Option (List Opt) :=
+  let tokenCh (c : Nat) : Bool := (48 ≤ c && c ≤ 57) || (65 ≤ c && c ≤ 90) || (97 ≤ c && c ≤ 122) || c == 45 || c == 95 || c == 46
+  let tok (b : Bytes) : Bool := !b.isEmpty && b.all tokenCh
+  let param (b : Bytes) : Option (Bytes × Bytes) :=
+    match splitByte (trimBlank b) 61 with
+    | [k] => if tok (trimBlank k) then some (trimBlank k, []) else none
+    | [k, v] => if tok (trimBlank k) && tok (trimBlank v) then some (trimBlank k, trimBlank v) else none
+    | _ => none
+  let item (b : Bytes) : Option Opt :=
+    match splitByte b 59 with
+    | [] => none
+    | n :: ps =>
+      if !tok (trimBlank n) then none else
+      (ps.mapM param).map fun l => { name := trimBlank n, params := l }
+  (vals.mapM fun v => (splitByte v 44).mapM item).map List.flatten
+
 /-- Oracle for one server-upgrade observation. `cbRejects`: a rejecting callback is configured. -/
-def judgeUpgrade (cfg : UpCfg) (reqBytes : Bytes) (err protoObs written : String) (zeroCopy : Bool) : String :=
+def judgeUpgrade (cfg : UpCfg) (reqBytes : Bytes) (err protoObs written : String) (zeroCopy : Bool) (extsObs : String := "?") : String :=
   let wr := hexOr written
   let is101 := wr.take 12 == strBytes "HTTP/1.1 101"
   match parseOReq reqBytes with
@@ -235,7 +254,15 @@ def judgeUpgrade (cfg : UpCfg) (reqBytes : Bytes) (err protoObs written : String
             let sent := (respHeader wr "Sec-WebSocket-Protocol").getD []
             if hexOr protoObs != expProto || sent != expProto then "bad:subprotocol-not-first-accepted-in-client-order"
             else if cfg.header != [] && !contains wr cfg.header then "bad:extra-headers-missing"
-            else "ok"
+            else
+              -- deprecated Extension selector (no negotiator): the answer is the client's own offers the
+              -- selector accepts, in client order, each with the parameters it was offered with
+              match cfg.extension, cfg.negotiate, plainOffer (occs r "sec-websocket-extensions") with
+              | some accept, none, some offers =>
+                let exp := optsStr (offers.filter fun o => accept.contains o.name)
+                if extsObs != "?" && extsObs != exp then s!"bad:extensions-answered-{extsObs}-offered-and-accepted-{exp}"
+                else "ok"
+              | _, _, _ => "ok"
     else if err.startsWith "io:" then (if is101 then "bad:101-written-on-failure" else "ok")
     else
       if is101 then "bad:101-written-on-failure"
@@ -271,7 +298,7 @@ def c09up (a : List String) (obs : String) : String × String :=
     let model := s!"{upErrStr e} proto={Bytes.toHex hs.protocol} exts={optsStr hs.extensions} written={Bytes.toHex wr} pos={pos}"
     let f := obs.splitOn " "
     let get (k : String) : String := ((f.filter (·.startsWith (k ++ "="))).headD "").drop (k.length + 1) |>.toString
-    (model, judgeUpgrade cfg (hexOr req) (f.headD "") (get "proto") (get "written") true)
+    (model, judgeUpgrade cfg (hexOr req) (f.headD "") (get "proto") (get "written") true (get "exts"))
   | _ => ("BADOP", "skip")
 
 def parseAReq (s : String) : AReq :=
@@ -293,7 +320,7 @@ def c09hup (a : List String) (obs : String) : String × String :=
     let ar := parseAReq (get "areq")
     let (hs, e, wr) := httpUpgrade cfg ar
     let model := s!"{upErrStr (e.map .hs)} proto={Bytes.toHex hs.protocol} exts={optsStr hs.extensions} written={Bytes.toHex wr} areq={get "areq"}"
-    (model, judgeUpgrade cfg (hexOr req) (f.headD "") (get "proto") (get "written") false)
+    (model, judgeUpgrade cfg (hexOr req) (f.headD "") (get "proto") (get "written") false (get "exts"))
   | _ => ("BADOP", "skip")
 
 end Ws.Driver
